@@ -311,6 +311,11 @@ func StateDigest(a *App, kr *Keyring) string {
 		delete(p, "txCount")
 		if vol, ok := p["vol"].(J); ok {
 			delete(vol, "gasPool")
+			// between a Commit and the next BeginBlock the running totals of the stake limiter are dead state: BeginBlock
+			// resets them before anything reads them on the consensus path (a restarted process has them reset already)
+			if ib, _ := p["inblock"].(bool); !ib {
+				delete(vol, "limiter")
+			}
 		}
 		if accts, ok := p["accts"].(J); ok {
 			for k, x := range accts {
